@@ -26,7 +26,7 @@ var dcTable = []struct {
 	{"tensor.(StdEng).Repeat", "$r.denseRepeat(", []string{"C13", "C10"}},
 	{"tensor.(StdEng).RepeatReuse", "$r.denseRepeat(", []string{"C13", "C10"}},
 	{"tensor.(StdEng).Concat", "$r.denseConcat(", []string{"C13", "C10"}},
-	{"tensor.(*Dense).Repeat", ".Repeat($r, $axis, $repeats...)", []string{"C13", "C10"}},
+	{"tensor.(*Dense).Repeat", ".Repeat($r, ", []string{"C13", "C10"}},
 }
 
 var dcErrTested = regexp.MustCompile(`^\(?\(?([%$][\w]+) != nil\)?`)
